@@ -510,6 +510,13 @@ func (fr *frame) eval1(v ssa.Value) Val {
 		if _, ok := fr.in.Prog.globalPattern(x); ok {
 			return Val{K: KPtr, S: "g:" + x.Pkg.Pkg.Path() + "." + x.Name()}
 		}
+		// a read-only table of the module: what the package initialiser built
+		if fr.in.noInitHeap && x.Pkg != nil && strings.HasPrefix(x.Pkg.Pkg.Path(), modPath) {
+			return Val{K: KPtr, S: "g:" + x.Pkg.Pkg.Path() + "." + x.Name()}
+		}
+		if ro, _ := fr.in.Prog.globalReadOnly(x); ro {
+			return Val{K: KPtr, S: "g:" + x.Pkg.Pkg.Path() + "." + x.Name()}
+		}
 		return top
 	case *ssa.FreeVar:
 		for i, fv := range fr.fn.FreeVars {
@@ -1106,7 +1113,7 @@ func (fr *frame) builtin(name string, c *ssa.Call, args []Val) Val {
 		if a0.K != KSlice || !strings.Contains(a0.S, "#") {
 			base = fr.siteName(c)
 			fr.allocate(base)
-			if a0.K == KNil {
+			if a0.K == KNil || (a0.K == KSlice && a0.Len == 0) {
 				a0 = Val{K: KSlice, S: base, Len: 0}
 			} else {
 				a0 = Val{K: KSlice, S: base, Len: -1}
